@@ -38,6 +38,7 @@ type Cfg struct {
 	Caps     []string `json:"caps"`
 	Dsn      string   `json:"dsn"`
 	Nonoop   bool     `json:"nonoop"`
+	Cs       int      `json:"cs"`
 	Policy   string   `json:"policy"`
 	Authtype string   `json:"authtype"`
 	Noenc    bool     `json:"noenc"`
@@ -98,6 +99,11 @@ func BuildMsg(m int, cfg Cfg, failing bool) (*mail.Msg, error) {
 			n, _ := io.WriteString(w, bodyHead)
 			return int64(n), errProducer
 		})
+	case "failEOF": // a producer whose source ends early reports io.EOF / io.ErrUnexpectedEOF
+		msg.SetBodyWriter(mail.TypeTextPlain, func(w io.Writer) (int64, error) {
+			n, _ := io.WriteString(w, bodyHead)
+			return int64(n), fmt.Errorf("source ended early: %w", io.EOF)
+		})
 	default:
 		msg.SetBodyWriter(mail.TypeTextPlain, func(w io.Writer) (int64, error) {
 			n, err := io.WriteString(w, bodyHead+bodyTail)
@@ -106,6 +112,8 @@ func BuildMsg(m int, cfg Cfg, failing bool) (*mail.Msg, error) {
 	}
 	if rf == "failAtt" {
 		msg.AttachReadSeeker("data.bin", &failSeeker{})
+	} else if rf == "failAttEOF" {
+		msg.AttachReadSeeker("data.bin", &failSeeker{err: io.ErrUnexpectedEOF, data: attachment(m)[:100]})
 	} else {
 		msg.AttachReadSeeker("data.bin", bytes.NewReader(attachment(m)))
 	}
@@ -120,10 +128,26 @@ func attachment(m int) []byte {
 	return b
 }
 
-type failSeeker struct{}
+// failSeeker yields data and then fails with err (errProducer by default) instead of io.EOF.
+type failSeeker struct {
+	err  error
+	data []byte
+	pos  int
+}
 
-func (f *failSeeker) Read(p []byte) (int, error)         { return 0, errProducer }
-func (f *failSeeker) Seek(o int64, w int) (int64, error) { return 0, nil }
+func (f *failSeeker) Read(p []byte) (int, error) {
+	if f.pos < len(f.data) {
+		n := copy(p, f.data[f.pos:])
+		f.pos += n
+		return n, nil
+	}
+	if f.err != nil {
+		return 0, f.err
+	}
+	return 0, errProducer
+}
+
+func (f *failSeeker) Seek(o int64, w int) (int64, error) { f.pos = 0; return 0, nil }
 
 var reasonNames = map[mail.SendErrReason]string{
 	mail.ErrGetSender: "getsender", mail.ErrGetRcpts: "getrcpts", mail.ErrSMTPMailFrom: "mail",
@@ -283,7 +307,7 @@ func (rn *Runner) Run() {
 	// server script
 	faults := map[refsmtp.Key]refsmtp.Fault{}
 	for i, e := range sc.Env {
-		faults[refsmtp.Key{V: e.V, M: e.M, R: e.R}] = refsmtp.Fault{K: i + 1, Class: e.C, Shape: e.Sh}
+		faults[refsmtp.Key{V: e.V, M: e.M, R: e.R}] = refsmtp.Fault{K: i + 1, Class: e.C, Shape: e.Sh, Rot: cfg.Cs}
 		if e.C == "stall" {
 			rn.stall = true
 		}
